@@ -608,6 +608,9 @@ func (fr *Frame) obligation(kind, label string, reach Term, goal Term, comment s
 		pos = fmt.Sprintf("%s:%d", strings.TrimPrefix(p.Filename, "/repo/"), p.Line)
 	}
 	o := &Obligation{Name: name, Func: x.cur.fnName, Kind: kind, Label: label, Reach: reach, Goal: goal, Comment: comment, Pos: pos, Inputs: x.cur.inputs, Props: x.cur.props}
+	if kind == "ensures" {
+		o.outVals, o.outRow = x.cur.outVals, x.cur.outRow
+	}
 	x.ctx.AddObl(o)
 }
 
